@@ -105,6 +105,7 @@ type PathState struct {
 	objCount int
 	clock    int
 	lastClock *term.Term
+	clockMaxStep uint64 // >0: consecutive clock readings differ by at most this (zz.PacedClock)
 	inHarnessDepth int
 }
 
